@@ -346,15 +346,23 @@ impl Property for C04 {
                         set_clock(now);
                         let e = make_entry(ns, author, key, Some(*c), now);
                         let mut r = sw.stores[*i].store.open_replica(&nsid)?;
-                        let res = sw.rt.block_on(r.insert(key, author, hash, len));
+                        // every other write goes through `hash_and_insert` (which hashes the bytes itself and
+                        // does not report the number of removed entries)
+                        let quiet = key.len() % 2 == 1;
+                        let res = if quiet {
+                            sw.rt.block_on(r.hash_and_insert(key, author, format!("content-{c}"))).map(|_| 0)
+                        } else {
+                            sw.rt.block_on(r.insert(key, author, hash, len))
+                        };
                         drop(r);
                         sw.stores[*i].store.close_replica(nsid);
                         if res.is_ok() {
                             sw.written.push(e.clone());
                         }
-                        let r = insert_result(res);
-                        sw.lines.push(Line::model(format!("tlocal {} {}", 10 + i, honest_fp_tok(&e)), r.clone()));
-                        sw.lines.push(Line::model(format!("wlocal 1 {i} {}", honest_fp_tok(&e)), r));
+                        let r = if quiet && res.is_ok() { "inserted".to_string() } else { insert_result(res) };
+                        let q = if quiet { "q" } else { "" };
+                        sw.lines.push(Line::model(format!("tlocal{q} {} {}", 10 + i, honest_fp_tok(&e)), r.clone()));
+                        sw.lines.push(Line::model(format!("wlocal{q} 1 {i} {}", honest_fp_tok(&e)), r));
                         sw.dump_lines(*i)?;
                     }
                     Op::Delete { i, a, key } if *i < n => {
